@@ -19,6 +19,7 @@ struct Case {
         if (s.kind != 0) return false;
     }
     if (path == 1 && merge != 1) return false;  // a writer refuses the duplicate keys a merger without merge function emits
+    if (merge == 0 && fam.has_dups_within_a_source()) return false;  // order of equal keys inside one source is the source's business
     return true;
   }
   std::string ser() const {
@@ -67,6 +68,7 @@ static Case gen_case() {
   } else {
     c.merge = weighted({22, 60, 18});
     c.dupsort = weighted({50, 25, 25});
+    if (c.merge == 0) c.fam.dedupe_within_sources();
     long long tot = 0;
     for (auto &kv : c.fam.occurrences()) tot += kv.second - 1;
     c.fail_at = pick(1, (int)std::max<long long>(1, tot + 1));
@@ -262,6 +264,7 @@ static Result run_case(const Case &c) {
     if (c.fam.srcs.empty()) r.tag("no_sources");
     for (auto &s : c.fam.srcs)
       if (s.kind == 1) r.tag("user_defined_source");
+    if (c.fam.has_dups_within_a_source()) r.tag("source_yielding_a_key_twice");
     r.tag("merge_" + std::to_string(c.merge));
     r.tag("dupsort_" + std::to_string(c.dupsort));
     r.tag("path_" + std::to_string(c.path));
